@@ -89,7 +89,7 @@ func projOS(item, canon string) string {
 		return canon
 	case "infos", "names":
 		n := 0
-		if parts[1] != "" {
+		if parts[1] != "" && parts[1] != "-" {
 			n = len(strings.Split(parts[1], ","))
 		}
 		return fmt.Sprintf("%s:%d:%s", parts[0], n, ec(parts[2]))
